@@ -7,6 +7,7 @@ import Homonim.Model.Blocks
 import Homonim.Model.WindowIO
 import Homonim.Model.Orient
 import Homonim.Model.Kernel
+import Homonim.Model.Resample
 open Homonim
 
 def ints (ts : List String) : Option (List Int) := ts.mapM String.toInt?
@@ -72,6 +73,26 @@ def handleFit (toks : List String) : String :=
         | _, _, _, _ => "bad-args"
       | _ => "bad-args"
     | _, _, _, _, _, _, _, _ => "bad-args"
+  | _ => "bad-args"
+
+/-- resample <method> Sr(o p n) Sc(o p n) Dr(o p n) Dc(o p n) V <Sr.n * Sc.n values, `_` invalid> -/
+def handleResample (toks : List String) : String :=
+  match toks with
+  | ms :: rest =>
+    let meth : Option Resampling := match ms with
+      | "average" => some .average | "nearest" => some .nearest | "bilinear" => some .bilinear | _ => none
+    match meth, ints (rest.take 12), rest.drop 12 with
+    | some meth, some [a, b, c, d, e, f, g, h, i, j, k, l], "V" :: vals =>
+      let sr : Axis := ⟨a, b, c⟩; let sc : Axis := ⟨d, e, f⟩; let dr : Axis := ⟨g, h, i⟩; let dc : Axis := ⟨j, k, l⟩
+      match parseGrid vals with
+      | some arr =>
+        if arr.size ≠ (c * f).toNat then "bad-args" else
+        let img : ImgO := fun r cc =>
+          if 0 ≤ r ∧ r < c ∧ 0 ≤ cc ∧ cc < f then arr.getD (r.toNat * f.toNat + cc.toNat) none else none
+        " ".intercalate ((List.range i.toNat).flatMap fun (jr : Nat) => (List.range l.toNat).map fun (jc : Nat) =>
+          showORat (resample2 meth sr sc dr dc img jr jc))
+      | none => "bad-args"
+    | _, _, _ => "bad-args"
   | _ => "bad-args"
 
 def handle (toks : List String) : String :=
@@ -149,6 +170,7 @@ def handle (toks : List String) : String :=
       s!"{if r.1.northUp then 1 else 0} {r.1.crs} {if r.2.northUp then 1 else 0} {r.2.crs}"
     | _ => "bad-args"
   | "fit" :: rest => handleFit rest
+  | "resample" :: rest => handleResample rest
   | "kshape" :: rest =>
     match rest with
     | [ms, kh, kw] =>
